@@ -271,6 +271,8 @@ def _worker(args):
     prop, tier, seed, k, n, phase = args
     os.environ[GUARD] = '1'
     sys.path.insert(0, VERIF)
+    import logging as _logging
+    _logging.disable(_logging.CRITICAL)      # scripted failures are logged by slimta; keep the check's output readable
     t0 = time.time()
     out = {'evaluations': 0, 'keys': set(), 'tags': {}, 'mismatches': [], 'hits': [], 'samples': [], 'errors': []}
     try:
